@@ -206,6 +206,11 @@ def pacing_scenarios(tier):
     out.append(("rt_group", dict(rt_factor=1, until=3, groups={"g": None},
                                  sims=[T("A", group="g"), T("B", group="g"), T("X")],
                                  conns=[C("A", "B", "po", "mi")]), [0, 1.5]))
+    # a triggered simulator with steps of its own behind a sparse ancestor
+    from .scenarios import H
+    out.append(("rt_sparse_anc_chain", dict(rt_factor=1, until=4,
+                                            sims=[T("A", 3), E("B", emit_default=0), H("Cc", next_default=1)],
+                                            conns=[C("A", "B", "po", "ti"), C("B", "Cc", "eo", "ti")]), [0]))
     out.append(("rt_indep3", dict(rt_factor=1, until=2, sims=[T("A"), T("B"), T("X")], conns=[]), [0, 1.5]))
     out.append(("rt_chain3", dict(rt_factor=1, until=3, sims=[T("A"), T("B"), E("Z")],
                                   conns=[C("A", "B", "po", "mi"), C("B", "Z", "po", "ti")]), [0, 1.5]))
@@ -239,8 +244,10 @@ def event_scenarios(tier):
                                                   sims=[T("A", 2, set_events=True)], conns=[],
                                                   events=[("A", at, tg)]), [0, 1.5]))
     # outside real-time mode
-    out.append(("nonrt_event", dict(until=3, sims=[E("A", set_events=True, init_event=0, next=[1, 1])],
-                                    conns=[], events=[("A", 0, "now+1")]), [0]))
+    for tg in ("now+1", "until-1", "until", "until+3"):
+        out.append((f"nonrt_event_{tg}", dict(until=3, sims=[E("A", set_events=True, init_event=0,
+                                                               next=[1, 1])],
+                                              conns=[], events=[("A", 0, tg)]), [0]))
     return out
 
 
